@@ -59,6 +59,11 @@ CHECKS = {
    text="The complete table 256 control bytes x 19 destination addresses x 7 source addresses x role x self-address feature x {fresh, after link reset} x 2 passes (440k frames) is run through link::layer::Layer and compared with a transcription of the statement (accepted, reply function/addresses, delivery, FCB toggling); generated RESET/CONFIRMED_USER_DATA sequences check the frame-count-bit rule; generated session cases send valid and invalid fragments from the configured master, a foreign master and the three broadcast addresses in idle and confirm-wait states with the any-master/broadcast features on and off: nothing may be transmitted in reaction to a broadcast, nothing but link-layer traffic and no callback for a foreign master.",
    note="Frames with malformed flag combinations and secondary frames are only required not to be acted on when not addressed to the endpoint. A REQUEST_LINK_STATUS to a broadcast address is required NOT to be answered.",
    design="DESIGN.md §5 C07"),
+ "C10": dict(
+   technique="property-based testing: database -> response/unsolicited writer -> library parser -> measurement extraction, compared with a statement-derived 'what this variation can carry' reference",
+   text="Generated databases (8 point types, every configurable static and event variation, indices incl. 0/255/256/65535), update sequences (analog values at the i16/i32/binary32 limits, fractions, NaN, infinities, subnormals; counters around 2^16 and 2^32; every flag octet; 48-bit times, synchronized and not, with gaps around 65535 ms and decreasing; Detect/Force/Suppress; update_static on/off) are read by class 0, event classes, type and variation (all, ranges, count-limited) or reported through write_unsolicited into 249..2048-byte fragments; each fragment passes ParsedFragment::parse and extract_measurements_inner into a recording ReadHandler. Every delivered (index, value, flags, time) is compared with carry(variation, record) written from the statement (saturation + OVER_RANGE, low 16 bits of counters, ONLINE for flag-less variations, packed only for plainly ONLINE points, no time / absolute time / exactly reconstructed relative time); every selected point arrives once per selecting header in an admissible variation, every selected event once, in order, for its own point and type.",
+   note="Not asserted: NaN into an integer variation; the time delivered for a record without time in a time-carrying variation; sync quality through absolute-time variations; state bits of user flags that contradict the value; +-inf into binary32 may be kept or saturated+flagged; the library may promote a packed variation more often than required. UpdateInfo is trusted to say whether an update created an event.",
+   design="DESIGN.md §5 C10"),
  "C15": dict(
    technique="property-based testing of response streams against a statement-derived acceptance model (MasterRig)",
    text="A real MasterTask (real link layer and transport) is driven over the in-memory physical layer; the harness plays the outstations. For an outstanding READ (1-3 planned fragments), command, link check or nothing, generated streams mix the expected fragment with one-deviation variants (sequence, source, FIR/FIN/CON/UNS, IIN2, unparsable objects, non-response functions), unsolicited responses (new/duplicate, with and without data/CON, unknown source) and silences. The model says which fragments are accepted; compared with the user future's outcome, the ReadHandler's begin/objects/end record and the CONFIRMs on the wire (exactly one per accepted CON fragment, right sequence number and UNS bit).",
